@@ -587,6 +587,17 @@ def handle_violations(prop, agg, known, out=print):
     return new
 
 
+def evidence_path(prop):
+    """/verif/evidence/<id>.json - unless another tree than /repo is under test (VERIF_REPO): evidence
+    about a scratch worktree must never overwrite the evidence about /repo."""
+    repo = os.path.abspath(os.environ.get('VERIF_REPO', '/repo'))
+    if repo != '/repo':
+        import tempfile
+        return os.path.join(tempfile.gettempdir(), 'verif-evidence-%s-%d.json' % (prop, os.getuid()))
+    os.makedirs(os.path.join(VERIF, 'evidence'), exist_ok=True)
+    return os.path.join(VERIF, 'evidence', prop + '.json')
+
+
 def write_evidence(prop, tier, base_seed, agg, st_msg, violations_new, extra=None):
     profile = PROFILE_OF[prop]
     wall = agg['wall']
@@ -630,6 +641,5 @@ def write_evidence(prop, tier, base_seed, agg, st_msg, violations_new, extra=Non
     }
     if extra:
         ev['coverage'].update(extra)
-    os.makedirs(os.path.join(VERIF, 'evidence'), exist_ok=True)
-    with open(os.path.join(VERIF, 'evidence', prop + '.json'), 'w') as f:
+    with open(evidence_path(prop), 'w') as f:
         json.dump(ev, f, indent=1, default=str)
